@@ -1,5 +1,240 @@
-(* C13 -- placeholder while the proofs are being written *)
-From PyRTL Require Import Lib.C13Harness.
+(* C13 -- rtllib adders and multipliers are exact for all widths and values.
+   Only statements + `exact`; models in Lib/Adders.v, Lib/Mult.v, Lib/SeqMult.v,
+   proofs in Lib/AddersProofs.v, Lib/ReducerProofs.v, Lib/MultProofs.v,
+   Lib/SeqMultProofs.v.  Bit lists are LSB first; bval = unsigned value. *)
+From PyRTL Require Import Lib.Mult Lib.SeqMult Lib.BitListFacts Lib.AddersProofs
+  Lib.AddersProofs2 Lib.AddersProofs3 Lib.ReducerProofs Lib.MultProofs Lib.MultProofs2
+  Lib.SeqMultProofs.
 
-Example C13_smoke : bval (kogge_stone [true] [false] true) = 0.
+(* ------------------------------------------------------------------ adders *)
+
+(* ripple_add (with ripple_half_add and the operand swap): a + b + cin, width max+1 *)
+Theorem C13_ripple_add_exact : forall a b cin,
+  bval (ripple_add a b cin) = bval a + bval b + b2z cin /\
+  length (ripple_add a b cin) = S (Nat.max (length a) (length b)).
+Proof. exact ripple_add_exact. Qed.
+Print Assumptions C13_ripple_add_exact.
+
+(* kogge_stone as the code is today: exact for carry-in 0 (prefix invariant:
+   after the stage with distance d, gen[i] = generate of bits max(0,i-2d+1)..i) *)
+Theorem C13_kogge_stone_exact_cin0 : forall a b,
+  bval (kogge_stone a b false) = bval a + bval b /\
+  length (kogge_stone a b false) = S (Nat.max (length a) (length b)).
+Proof. exact kogge_stone_exact_cin0. Qed.
+Print Assumptions C13_kogge_stone_exact_cin0.
+
+(* the full statement "for every cin" is false of the code as it is (F9) *)
+Definition C13_kogge_stone_full_statement : Prop := forall a b cin,
+  bval (kogge_stone a b cin) = bval a + bval b + b2z cin.
+
+Theorem C13_kogge_cin_refuted :
+  exists a b cin, bval (kogge_stone a b cin) <> bval a + bval b + b2z cin.
+Proof. exact kogge_cin_refuted. Qed.
+Print Assumptions C13_kogge_cin_refuted.
+
+(* the same prefix network started from generate bits with cin folded into bit 0
+   (ks_init_gen_cin, the one-definition repair) is exact for every cin *)
+Theorem C13_kogge_stone_cinfold_exact : forall a b cin,
+  bval (kogge_stone_with ks_init_gen_cin a b cin) = bval a + bval b + b2z cin /\
+  length (kogge_stone_with ks_init_gen_cin a b cin) = S (Nat.max (length a) (length b)).
+Proof. exact kogge_stone_cinfold_exact. Qed.
+Print Assumptions C13_kogge_stone_cinfold_exact.
+
+(* cla_adder / _cla_adder_unit: exact for every look-ahead unit length >= 1 *)
+Theorem C13_cla_adder_exact : forall la a b cin, (1 <= la)%nat ->
+  bval (cla_adder la a b cin) = bval a + bval b + b2z cin /\
+  length (cla_adder la a b cin) = S (Nat.max (length a) (length b)).
+Proof. exact cla_adder_exact. Qed.
+Print Assumptions C13_cla_adder_exact.
+
+(* carrysave_adder with any exact final adder, whenever it returns *)
+Theorem C13_carrysave_exact : forall raises1 add a b c r,
+  adder_ok add -> carrysave_adder_with raises1 add a b c = Some r ->
+  bval r = bval a + bval b + bval c.
+Proof. exact carrysave_exact_gen. Qed.
+Print Assumptions C13_carrysave_exact.
+
+Theorem C13_carrysave_defined : forall raises1 add a b c,
+  (2 <= Nat.max (length a) (Nat.max (length b) (length c)))%nat ->
+  exists r, carrysave_adder_with raises1 add a b c = Some r.
+Proof. exact carrysave_defined. Qed.
+Print Assumptions C13_carrysave_defined.
+
+(* ... but it raises when all three operands are one bit wide (F12) *)
+Theorem C13_carrysave_width1_refuted :
+  exists a b c, length a = 1%nat /\ length b = 1%nat /\ length c = 1%nat /\
+                carrysave_adder add_ripple a b c = None.
+Proof. exact carrysave_width1_refuted. Qed.
+Print Assumptions C13_carrysave_width1_refuted.
+
+(* the final adders used by the reducers (two-argument call, cin = 0) are exact *)
+Theorem C13_final_adders_exact :
+  adder_ok add_ks /\ adder_ok add_ripple /\ forall la, (1 <= la)%nat -> adder_ok (add_cla la).
+Proof. exact (conj add_ks_ok (conj add_ripple_ok add_cla_ok)). Qed.
+Print Assumptions C13_final_adders_exact.
+
+(* ---------------------------------------------------------------- reducers *)
+
+(* one Wallace / Dada pass preserves the weighted column sum  sum_i 2^i*popcount(col_i) *)
+Theorem C13_wallace_pass_invariant : forall cols cin,
+  colsum (wallace_pass cols cin) = popc cin + colsum cols.
+Proof. exact wallace_pass_sum. Qed.
+Print Assumptions C13_wallace_pass_invariant.
+
+Theorem C13_dada_pass_invariant : forall target cols cin r,
+  dada_pass target cols cin = Some r -> colsum r = popc cin + colsum cols.
+Proof. exact dada_pass_sum. Qed.
+Print Assumptions C13_dada_pass_invariant.
+
+(* wallace_reducer (any fuel, any exact final adder): column sum mod 2^result_bitwidth *)
+Theorem C13_wallace_exact : forall fuel add cols rw r,
+  adder_ok add -> wallace_reducer_fuel fuel add cols rw = Some r ->
+  bval r = colsum cols mod 2 ^ Z.of_nat rw.
+Proof. exact wallace_fuel_exact. Qed.
+Print Assumptions C13_wallace_exact.
+
+(* dada_reducer (schedule 2,3,4,6,9,...; every column ends with height <= 2):
+   column sum mod 2^result_bitwidth whenever it returns *)
+Theorem C13_dada_exact : forall add cols rw r,
+  adder_ok add -> dada_reducer add cols rw = Some r ->
+  bval r = colsum cols mod 2 ^ Z.of_nat rw.
+Proof. exact dada_exact. Qed.
+Print Assumptions C13_dada_exact.
+
+Theorem C13_dada_columns_le2 : forall cols rw c',
+  dada_reduced cols rw = Some c' -> all_le2 c' = true.
+Proof. exact dada_reduced_le2. Qed.
+Print Assumptions C13_dada_columns_le2.
+
+(* fast_group_adder: L + ceil(log2 k) result bits always hold the exact sum *)
+Theorem C13_fast_group_adder_exact : forall red add ws r,
+  reducer_ok red -> adder_ok add ->
+  fast_group_adder red add ws = Some r -> bval r = sum_bvals ws.
+Proof. exact fast_group_adder_exact. Qed.
+Print Assumptions C13_fast_group_adder_exact.
+
+(* ------------------------------------------------------------- multipliers *)
+
+(* tree_multiplier = partial products + reducer + final adder: exact product *)
+Theorem C13_tree_multiplier_exact : forall red add A B r,
+  reducer_ok red -> adder_ok add ->
+  tree_multiplier red add A B = Some r -> bval r = bval A * bval B.
+Proof. exact tree_multiplier_exact. Qed.
+Print Assumptions C13_tree_multiplier_exact.
+
+Theorem C13_reducers_ok : reducer_ok wallace_reducer /\ reducer_ok dada_reducer.
+Proof. exact (conj wallace_exact dada_exact). Qed.
+Print Assumptions C13_reducers_ok.
+
+(* signed_tree_multiplier (sval = to_signed).  Full statement, false of the code (F10): *)
+Definition C13_signed_tree_multiplier_full_statement : Prop := forall A B r,
+  signed_tree_multiplier A B = Some r ->
+  sval r = sval A * sval B /\ length r = (length A + length B)%nat.
+
+Theorem C13_signed_tree_most_negative_refuted :
+  exists A B r, signed_tree_multiplier A B = Some r /\
+    bval r <> (sval A * sval B) mod 2 ^ Z.of_nat (length A + length B).
+Proof. exact signed_tree_most_negative_refuted. Qed.
+Print Assumptions C13_signed_tree_most_negative_refuted.
+
+(* proved for every operand pair without the most negative value *)
+Theorem C13_signed_tree_multiplier_partial : forall A B r,
+  signed_tree_multiplier A B = Some r ->
+  sval A <> - 2 ^ Z.of_nat (length A - 1) -> sval B <> - 2 ^ Z.of_nat (length B - 1) ->
+  sval r = sval A * sval B /\ length r = (length A + length B)%nat.
+Proof. exact signed_tree_multiplier_partial_signed. Qed.
+Print Assumptions C13_signed_tree_multiplier_partial.
+
+(* with all magnitude bits kept (stm_magnitude := fun a => a, the one-definition repair)
+   the statement holds for every operand pair *)
+Theorem C13_signed_tree_multiplier_fullmag_exact : forall A B r,
+  signed_tree_multiplier_with (fun x => x) A B = Some r ->
+  sval r = sval A * sval B /\ length r = (length A + length B)%nat.
+Proof. exact signed_tree_multiplier_fullmag_signed. Qed.
+Print Assumptions C13_signed_tree_multiplier_fullmag_exact.
+
+(* generalized_fma: the full statement is false of the code (F11) ... *)
+Definition C13_fma_full_statement : Prop := forall red add pairs adds r,
+  reducer_ok red -> adder_ok add ->
+  generalized_fma red add pairs adds = Some r -> bval r = fma_exact pairs adds.
+
+Theorem C13_fma_width_refuted :
+  exists a b c r,
+    fused_multiply_adder wallace_reducer add_ks a b c = Some r /\
+    length r = fma_width [(a, b)] [c] /\
+    bval r <> bval a * bval b + bval c.
+Proof. exact fma_width_refuted. Qed.
+Print Assumptions C13_fma_width_refuted.
+
+(* ... it returns the exact value modulo 2^(its result width), hence the exact
+   value under the explicit "fits in the result width" side condition *)
+Theorem C13_fma_mod_width : forall red add pairs adds r,
+  reducer_ok red -> adder_ok add ->
+  generalized_fma red add pairs adds = Some r ->
+  bval r = fma_exact pairs adds mod 2 ^ Z.of_nat (fma_width pairs adds).
+Proof. exact generalized_fma_mod. Qed.
+Print Assumptions C13_fma_mod_width.
+
+Theorem C13_fma_exact_when_fits : forall red add pairs adds r,
+  reducer_ok red -> adder_ok add ->
+  generalized_fma red add pairs adds = Some r ->
+  fma_exact pairs adds < 2 ^ Z.of_nat (fma_width pairs adds) ->
+  bval r = fma_exact pairs adds.
+Proof. exact generalized_fma_exact_when_fits. Qed.
+Print Assumptions C13_fma_exact_when_fits.
+
+(* ---------------------------------------------------- sequential multipliers *)
+
+(* start high for one cycle (any prior state), then operands held with start low:
+   done is low for d cycles, d <= len(A), then stays high and accum = A*B.
+   The state after the start cycle is visible one cycle after start, so done is
+   raised within len(A)+1 cycles of start. *)
+Theorem C13_simple_mult_done_and_product : forall alen blen A B st0,
+  0 < alen -> 0 < blen -> 0 <= A < 2 ^ alen -> 0 <= B < 2 ^ blen ->
+  let st1 := simple_step alen blen true A B st0 in
+  let hold := simple_step alen blen false A B in
+  exists d, (d <= Z.to_nat alen)%nat /\
+    (forall j, (j < d)%nat -> m_done (m_run hold j st1) = false) /\
+    (forall k, (d <= k)%nat ->
+       m_done (m_run hold k st1) = true /\ accum (m_run hold k st1) = A * B).
+Proof. exact simple_mult_done_and_product. Qed.
+Print Assumptions C13_simple_mult_done_and_product.
+
+(* complex_mult: the same with ceil(len(A)/shifts) *)
+Theorem C13_complex_mult_done_and_product : forall alen blen sh A B st0,
+  0 < alen -> 0 < blen -> (1 <= sh)%nat -> 0 <= A < 2 ^ alen -> 0 <= B < 2 ^ blen ->
+  let st1 := complex_step alen blen sh true A B st0 in
+  let hold := complex_step alen blen sh false A B in
+  let bound := Z.to_nat ((alen + Z.of_nat sh - 1) / Z.of_nat sh) in
+  exists d, (d <= bound)%nat /\
+    (forall j, (j < d)%nat -> m_done (m_run hold j st1) = false) /\
+    (forall k, (d <= k)%nat ->
+       m_done (m_run hold k st1) = true /\ accum (m_run hold k st1) = A * B).
+Proof. exact complex_mult_done_and_product. Qed.
+Print Assumptions C13_complex_mult_done_and_product.
+
+(* --------------------------------------------------------------- non-vacuity *)
+
+(* the reducers do return on multiplier-shaped and adder-shaped arrays *)
+Example C13_example_tree_returns :
+  option_map bval (tree_multiplier wallace_reducer add_ks (zbits 5 23) (zbits 4 13)) = Some (23 * 13)
+  /\ option_map bval (tree_multiplier dada_reducer add_ripple (zbits 5 23) (zbits 4 13)) = Some (23 * 13)
+  /\ option_map bval (fast_group_adder dada_reducer add_ks [zbits 3 7; zbits 5 31; zbits 1 1; zbits 4 9])
+     = Some (7 + 31 + 1 + 9)
+  /\ option_map bval (generalized_fma wallace_reducer add_ks [(zbits 3 7, zbits 3 5); (zbits 2 3, zbits 4 11)] [zbits 4 6])
+     = Some (7 * 5 + 3 * 11 + 6).
+Proof. vm_compute. repeat split; reflexivity. Qed.
+
+(* signed: (-3) * 5 on 4x4 bits; the hypotheses of the partial theorem hold *)
+Example C13_example_signed :
+  option_map sval (signed_tree_multiplier (zbits 4 (-3)) (zbits 4 5)) = Some (-15)
+  /\ sval (zbits 4 (-3)) = -3 /\ sval (zbits 4 (-3)) <> - 2 ^ Z.of_nat (4 - 1).
+Proof. vm_compute. repeat split; try reflexivity. discriminate. Qed.
+
+(* a 5-bit multiplication on the register machine: done after 3 cycles (A = 5 = 0b101) *)
+Example C13_example_simple_mult :
+  let st1 := simple_step 5 5 true 5 27 m_init in
+  let hold := simple_step 5 5 false 5 27 in
+  map (fun k => (b2z (m_done (m_run hold k st1)), accum (m_run hold k st1))) [0; 1; 2; 3; 4]%nat
+  = [(0, 0); (0, 27); (0, 27); (1, 135); (1, 135)].
 Proof. vm_compute. reflexivity. Qed.
